@@ -42,7 +42,32 @@ RegionFailing(ev) ==
                         \cup (IF extra = {} THEN {} ELSE {<<i, "point_beyond_reach_covered", SampleAt(CHOOSE n \in extra : TRUE)>>})
                     : i \in DOMAIN g.els}
 
+\* circular bends ([M], as C08's clearance clause): the outline must be the swept region of the centre
+\* curve in which an ADMISSIBLE set of corners is replaced by arcs of the requested radius: the two
+\* tangent lengths taken from a leg fit into it (arcs never overlap), and no further corner could
+\* be bent as well ("when they fit").  The harness measured every sample against every choice.
+KClear == 3000
+Slack == 5                 \* milli units: tangent lengths and legs are rounded
+Admissible(c, legs, tans) ==
+    LET n == Len(tans)
+        T(ch, i) == IF i >= 1 /\ i <= n /\ ch[i] = 1 THEN tans[i] ELSE 0
+        Fits(ch) == \A j \in DOMAIN legs : T(ch, j - 1) + T(ch, j) <= legs[j] - Slack
+        Overfull(ch) == \E j \in DOMAIN legs : T(ch, j - 1) + T(ch, j) >= legs[j] + Slack IN
+    /\ Fits(c)
+    /\ \A i \in 1..n : c[i] = 0 => Overfull([c EXCEPT ![i] = 1])
+ChoiceOK(ch) ==
+    LET miss == {k \in DOMAIN ch.samples : ch.samples[k][3] = 1 /\ ch.samples[k][2] < -KClear /\ ch.samples[k][1] = 0}
+        extra == {k \in DOMAIN ch.samples : ch.samples[k][2] > KClear /\ ch.samples[k][1] = 1} IN
+    miss = {} /\ extra = {} /\ Len(ch.samples) > 20
+BendFailing(ev) ==
+    IF ev.err # 0 \/ ev.npoly # 1 THEN {<<0, "no_outline">>}
+    ELSE LET adm == {k \in DOMAIN ev.choices : Admissible(ev.choices[k].c, ev.legs, ev.tans)} IN
+         (IF adm # {} THEN {} ELSE {<<0, "case_too_close_to_a_fitting_boundary">>})
+         \cup (IF \E k \in adm : ChoiceOK(ev.choices[k]) THEN {}
+               ELSE {<<0, "outline_is_not_the_swept_region_of_any_admissible_set_of_bends">>})
+
 Check(ev) == CASE ev.e = "fpbook" -> BookFailing(ev)
+               [] ev.e = "fpbend" -> BendFailing(ev)
                [] ev.e = "fpregion" -> RegionFailing(ev)
                [] OTHER -> {<<0, ev.e>>}
 TInit == l = 1
